@@ -14,8 +14,8 @@ EXTENDS TraceTree, Json, IOUtils, TLCExt
 
 Traces == JsonDeserialize(IOEnv.TRACE_FILE)
 
-VARIABLES tid, l, T, ph, err, done
-vars == <<tid, l, T, ph, err, done>>
+VARIABLES tid, l, T, ph, err, soft, done
+vars == <<tid, l, T, ph, err, soft, done>>
 
 Tr  == Traces[tid]
 PP  == Tr.P
@@ -25,7 +25,13 @@ NoTree == [n |-> 0]
 
 Init ==
   /\ tid \in 1 .. Len(Traces)
-  /\ l = 1 /\ T = NoTree /\ ph = "new" /\ err = "ok" /\ done = FALSE
+  /\ l = 1 /\ T = NoTree /\ ph = "new" /\ err = "ok" /\ soft = "ok" /\ done = FALSE
+
+\* geometric clauses (C02) do not invalidate the structural state: the walk goes on with the observed boxes, so that
+\* a later consequence (e.g. a point outside the user's box, C01) is still reached; the first one is kept in `soft`
+SoftSet == {"mk.tiling", "mk.centre", "mk.widths", "mk.cuts", "mk.replay-mismatch", "init.tiling", "init.centre", "init.widths"}
+Hard(c) == IF c \in SoftSet THEN "ok" ELSE c
+Soft(c) == IF c \in SoftSet /\ soft = "ok" THEN c ELSE soft
 
 InsideUserBox(pt) == PointInside(pt, Tr.xbox[1]) /\ \A x \in DOMAIN pt : pt[x] >= 1
 
@@ -44,14 +50,16 @@ Step ==
             \* "sessiononly" marks a session driven for the protocol / point clauses alone (C01 at the ends of the float
             \* range, where the geometric clauses of C02 are not what is being asked)
             LET c == IF Has(PP, "sessiononly") THEN "ok" ELSE InitCheck(PP, e) IN
-            /\ err' = IF c # "ok" THEN c
+            /\ err' = IF Hard(c) # "ok" THEN c
                       ELSE IF e.cells[1].box # Tr.xbox[1] THEN "init.rootbox" ELSE "ok"
+            /\ soft' = Soft(c)
             /\ T' = TreeOfInit(e) /\ ph' = "told"
        [] e.k = "init0" -> err' = "ok" /\ T' = T /\ ph' = "told"
        [] e.k = "mk" ->
             LET c == IF T.n = 0 THEN "mk.no-tree" ELSE MkCheck(PP, T, e) IN
-            /\ err' = c
-            /\ T' = IF c = "ok" THEN MkApply(PP, T, e) ELSE T
+            /\ err' = Hard(c)
+            /\ soft' = Soft(c)
+            /\ T' = IF Hard(c) = "ok" THEN MkApply(PP, T, e) ELSE T
             /\ ph' = ph
        [] e.k = "pull" ->
             /\ err' = IF ph # "told" THEN "protocol" ELSE CallCheck(e)
@@ -75,13 +83,16 @@ Step ==
             /\ T' = T /\ ph' = ph
        [] OTHER -> err' = "unknown-event" /\ T' = T /\ ph' = ph
   /\ l' = l + 1 /\ UNCHANGED <<tid, done>>
+  /\ (Ev[l].k \in {"init", "mk"}) \/ UNCHANGED soft
 
 Finish ==
   /\ ~done /\ (err # "ok" \/ l > Len(Ev))
-  /\ PrintT(<<"VERDICT", Tr.id, err, l - 1, IF T.n > 0 THEN T.n ELSE 0,
-              \* the closing event is examined even when an earlier clause stopped the walk: the user's domain object (C14)
-              IF err # "ok" /\ err # "end.domain-mutated" /\ Ev[Len(Ev)].k = "end" /\ Ev[Len(Ev)].dom_same # 1 THEN "end.domain-mutated" ELSE "ok">>)
-  /\ done' = TRUE /\ UNCHANGED <<tid, l, T, ph, err>>
+  /\ PrintT(<<"VERDICT", Tr.id, IF err # "ok" THEN err ELSE soft, l - 1, IF T.n > 0 THEN T.n ELSE 0,
+              \* secondary clauses: the soft geometric clause when a hard one ended the walk, and the closing event's
+              \* domain flag, which is examined even when an earlier clause stopped the walk (C14)
+              (IF err # "ok" THEN soft ELSE "ok") \o "|" \o
+              (IF err # "ok" /\ err # "end.domain-mutated" /\ Ev[Len(Ev)].k = "end" /\ Ev[Len(Ev)].dom_same # 1 THEN "end.domain-mutated" ELSE "ok")>>)
+  /\ done' = TRUE /\ UNCHANGED <<tid, l, T, ph, err, soft>>
 
 Next == Step \/ Finish
 Spec == Init /\ [][Next]_vars
